@@ -1,26 +1,46 @@
-"""C03 - Integration is linear in (density, theta0) and independent of the reference size
+"""C03 - integration is linear in (density, theta0) and independent of the reference size.
 
-Status: bounded run-time contracts only (props/bounded_C03.py) until the proof obligations of DESIGN.md 7 C03 are added.
+Contracts / lemmas (sidecar):
+  integration_shared.c  Vfunc, Vfunc_beta:  V(x; c nu) = V(x; nu)/c;   Mfunc1D..5D:  M(x; m/c, gamma/c, h) = M/c
+                        compute_delj contract: delj(M/c, V/c, dx) = delj(M, V, dx);
+                        compute_abc_nobc contract: (a, b, c)(M/c, V/c, c dt) = (a, b, c)(M, V, dt)/c      (2-safety lemmas)
+  Integration.py        _compute_dt(dx, c nu, ms/c, gamma/c, h) = c _compute_dt(dx, nu, ms, gamma, h) on every pair of paths;
+                        _inject_mutations_kD: increment = theta0 x (theta0-free, phi-free term), unchanged under (c dt, theta0/c)  [C04 obligations]
+  Linearity in the density: the kernel contracts of C02 hand the solver coefficient arrays that do not depend on phi and rhs phi/dt.
+Whole-model superposition and rescaling: bounded driver.
 """
+from vf.core import Task
 from vf.helpers import bounded_tasks
 
 META = dict(
-    level='exploration',
-    expects_obligations=False,
-    explanation='Run-time contracts on the real functions over the bounded domain stated per driver (bounded stand-in; nothing proved).',
-    trusted_base=['oracles of props/bounded_C03.py (independent of dadi: exact rationals, mpmath, dense linear algebra, explicit index loops)'],
-    rule='cases enumerated or sampled as stated in each driver\'s bound; a case is non-trivial unless the driver marks it degenerate; distinct by its key',
+    level='other',
+    explanation='Per-step invariance under a change of reference size is proved as 2-safety lemmas over the verified contracts of the C '
+                'helpers and on the real _compute_dt; the influx formula is proved in C04. Linearity of one step follows from the C02 '
+                'kernel contracts (coefficients independent of the density, rhs phi/dt). Whole integrations and whole models (many steps, '
+                'round-off) are bounded run-time checks to 1e-10.',
+    trusted_base=['double = real', 'contracts of integration_shared.c as verified in C02', 'exp uninterpreted (congruence only)', 'vf/polyring.py'],
 )
 
 
 def tasks(tier):
-    return bounded_tasks('C03', tier)
+    ts = [Task('props.C03:t_scaling', name='C03/scaling-lemmas', timeout=600),
+          Task('props.wire:run', name='C03/wire.compute_dt', fname='c03_compute_dt', timeout=300)]
+    return ts + bounded_tasks('C03', tier)
+
+
+def t_scaling():
+    from contracts import c_verify as V
+    return V.scaling_lemmas()
 
 
 MANIFEST_ENTRY = dict(
-    category='exploration',
-    engine='bounded',
-    technique='bounded run-time contracts on the real functions with independent oracles (stand-in for the contract proofs, never counted as proved)',
-    text='Superposition and reference-size rescaling of one to five population integrations and of whole models built from the public API, to 1e-10, over the sampled domains stated per driver.',
-    note='bounded: see coverage.bounded.drivers[].bound in the evidence file for the exact domain of every driver',
+    category='other',
+    engine='cvc',
+    technique='2-safety lemmas over the verified contracts of the C helpers (z3 + ring normaliser), path-pair obligations on the real _compute_dt; '
+              'bounded superposition / rescaling of whole integrations and models',
+    text='Proved for all inputs: rescaling the reference size by c divides V and M by c, leaves the Chang-Cooper weight unchanged and divides the '
+         'assembled (a,b,c) by c when dt is multiplied by c; _compute_dt scales by exactly c on every path. Together with the C02 kernel '
+         'contracts this makes one rescaled step solve the same linear system. Superposition and rescaling of whole integrations (1-5 '
+         'populations, time-varying parameters, flags) and whole models are bounded run-time checks at 1e-10.',
+    note='induction over time steps and round-off are not proved; see evidence for the bounded domains',
 )
